@@ -52,12 +52,14 @@ BuiltVerdict(o) ==
   \* the change itself names the shape two of the recorded findings need
   ELSE IF o.what = "map-key-named-like-a-member" /\ "Dev_AdditionalPropsKeyNamedLikeMember" \in KnownB THEN "known=Dev_AdditionalPropsKeyNamedLikeMember"
   ELSE IF o.what = "raw-nil" /\ c = "built-value-written-as-malformed-json" /\ "Dev_NilRawWrittenAsNothing" \in KnownB THEN "known=Dev_NilRawWrittenAsNothing"
-  ELSE IF o.what \in {"ptr-nil", "opt-set-zero-value"} /\ c = "built-value-decodes-to-a-different-value" /\ o.emptyStruct /\ "Dev_NilPointerEmptyStruct" \in KnownB THEN "known=Dev_NilPointerEmptyStruct"
-  ELSE IF o.what = "slice-append-zero-value" /\ c = "built-value-decodes-to-a-different-value" /\ o.sharedArray /\ "Dev_SharedArrayNilSemantic" \in KnownB THEN "known=Dev_SharedArrayNilSemantic"
+  ELSE IF o.what \in {"ptr-nil", "opt-set-zero-value"} /\ c \in {"built-value-decodes-to-a-different-value", "own-encoding-of-built-value-refused"} /\ o.emptyStruct /\ "Dev_NilPointerEmptyStruct" \in KnownB THEN "known=Dev_NilPointerEmptyStruct"
+  ELSE IF o.what \in {"slice-append-zero-value", "slice-nil"} /\ c \in {"built-value-decodes-to-a-different-value", "built-value-written-as-malformed-json"} /\ o.sharedArray /\ "Dev_SharedArrayNilSemantic" \in KnownB THEN "known=Dev_SharedArrayNilSemantic"
   \* written text invalid / refused again, but valid once a recorded deviation is switched on
   ELSE IF c \in {"built-value-written-as-json-invalid-against-schema", "own-encoding-of-built-value-refused"} /\ o.out.t # "opaque" /\ ~Valid(o.schema, o.out)
-          /\ \E d \in KnownB : ImplValid(o.schema, o.out, {d})
-       THEN "known=" \o (IF "Dev_PropertyCountNotInValidate" \in KnownB /\ ImplValid(o.schema, o.out, {"Dev_PropertyCountNotInValidate"}) THEN "Dev_PropertyCountNotInValidate"
+          /\ ImplValid(o.schema, o.out, KnownB)
+       \* named after one recorded deviation the text needs (several may be needed together)
+       THEN "known=" \o (IF "Dev_PropertyCountNotInValidate" \in KnownB /\ ~ImplValid(o.schema, o.out, KnownB \ {"Dev_PropertyCountNotInValidate"}) THEN "Dev_PropertyCountNotInValidate"
+                          ELSE IF \E d \in KnownB : ~ImplValid(o.schema, o.out, KnownB \ {d}) THEN CHOOSE d \in KnownB : ~ImplValid(o.schema, o.out, KnownB \ {d})
                           ELSE CHOOSE d \in KnownB : ImplValid(o.schema, o.out, {d}))
   ELSE "viol-" \o c
 EchoVerdict(o) ==
